@@ -39,6 +39,7 @@ ASSUMPTIONS = ["round trip of item lists that never meet a transport (pure funct
 TIERS = {"quick": {"runs": 60000, "wall": 55}, "thorough": {"runs": 3000000, "wall": 1500}}
 
 LENS = [0, 1, 2, 254, 255, 256, 257, 509, 510, 511, 765, 766]
+HARMLESS = ("frag_empty_last", "frag_empty_middle")  # legal peer behaviour, not damage: the reply must still be accepted
 PAIRING_TYPES = [0, 1, 2, 3, 4, 5, 6, 7, 8, 9, 10, 11, 14, 19]
 
 
@@ -62,7 +63,7 @@ def gen_items(r: random.Random, avoid=()) -> list:
 def gen_plan(seed: int, tier: str) -> dict:
     r = random.Random(seed)
     mode = r.choice(["ble"] * 6 + ["ip"] * 3 + ["coap"] * 2)
-    fault = r.choice([None] * 4 + ["truncate", "truncate", "corrupt", "lone_type", "frag_drop", "frag_dup", "frag_endless"])
+    fault = r.choice([None] * 4 + ["truncate", "truncate", "corrupt", "lone_type", "frag_drop", "frag_dup", "frag_endless", "frag_empty_last", "frag_empty_middle"])
     if mode != "ble" and fault and fault.startswith("frag_"):
         fault = "truncate"
     plan = {"mode": mode, "req": gen_items(r), "reply": gen_items(r, avoid=(0x0C, 0x0D) if mode == "ble" else ()), "fault": fault, "pos": r.random(), "bit": r.randrange(8), "idx": r.randrange(8),
@@ -70,6 +71,8 @@ def gen_plan(seed: int, tier: str) -> dict:
             "expected": r.choice([None, None, "all", "some"])}
     if mode == "coap":
         plan["req"] = []
+    if fault in ("frag_empty_last", "frag_empty_middle") and not plan["tlv_frag"]:
+        plan["tlv_frag"] = r.choice([16, 64, 200])
     return plan
 
 
@@ -171,7 +174,7 @@ def judge_reply(ctx, plan, delivered: bytes, result, exc, expected=None, as_dict
         name = type(exc).__name__
         if codec_exception(exc) and name != "TlvParseException":
             ctx.violate("codec-raised", name, f"decoding {len(delivered)} delivered bytes ({delivered[:24].hex()}...) raised {name}: {exc} from inside protocol/tlv.py (reference: {ref_err or 'decodes fine'})")
-        elif ref is not None and plan["fault"] is None:
+        elif ref is not None and (plan["fault"] is None or plan["fault"] in HARMLESS):
             ctx.violate("reply-rejected", name, f"fault-free reply {[(t, len(v)) for t, v in ref]} raised {exc!r}")
         return
     if ref is None:
@@ -242,7 +245,7 @@ def execute_ble(plan, ch):
 
     acc.pairing_echo = echo
     acc.tlv_frag_size = plan["tlv_frag"]
-    if plan["fault"] in ("frag_drop", "frag_dup", "frag_endless"):
+    if plan["fault"] in ("frag_drop", "frag_dup", "frag_endless", "frag_empty_last", "frag_empty_middle"):
         acc.tlv_frag_fault = {"kind": plan["fault"][5:], "idx": plan["idx"]}
     out = {"res": None, "exc": None}
 
